@@ -32,5 +32,5 @@ def extra(ck, tu, X, tier, seed):
     pywriter.add_py_writer(ck, "C19", 4 if tier == "thorough" else 3)
     ck.replayers["py."] = replay_writer.replay
     from checks import xext
-    xext.add_ext_obligations(ck, 4 if tier == "thorough" else 3)
+    xext.add_ext_obligations(ck, 4 if tier == "thorough" else 3, data_clauses=False)
     ck.replayers["x."] = replay_writer.replay
